@@ -94,3 +94,21 @@ Example C13_chain_nonvacuous :
      = Some [("t", VMap [("y", VStr "u2"); ("x", VStr "d")]); ("a", VNum 10%Z); ("u", VStr "keep")].
 Proof. exact ex_chain. Qed.
 Print Assumptions C13_chain_nonvacuous.
+
+Example C13_config_overlay_nonvacuous :
+  let f := mkFlags false false true in
+  let deployed : vmap := [("a", VNum 10%Z); ("t", VMap [("x", VStr "u")]); ("u", VStr "keep")] in
+  let newv : vmap := [("t", VMap [("y", VStr "n")]); ("a", VMap [("now", VStr "table")])] in
+  reset_values f = false /\ reuse_values f || reset_then_reuse_values f = true /\ wf (VMap deployed)
+  /\ lookup_path ["t"; "y"] (VMap (config_spec f newv deployed)) = Some (VStr "n")
+  /\ lookup_path ["t"; "x"] (VMap (config_spec f newv deployed)) = Some (VStr "u")
+  /\ lookup_path ["a"; "now"] (VMap (config_spec f newv deployed)) = Some (VStr "table")
+  /\ lookup_path ["u"] (VMap (config_spec f newv deployed)) = Some (VStr "keep").
+Proof. exact ex_overlay. Qed.
+Print Assumptions C13_config_overlay_nonvacuous.
+
+Example C13_consistent_nonvacuous :
+  Forall consistent (fst (run_chain [] ex_ops))
+  /\ List.length (fst (run_chain [] ex_ops)) = 5.
+Proof. exact ex_consistent. Qed.
+Print Assumptions C13_consistent_nonvacuous.
